@@ -1,1 +1,1 @@
-// placeholder
+pub mod num;
